@@ -92,6 +92,8 @@ pub fn strategy(g: TxGen) -> BoxedStrategy<SpCase> {
             let step = proptest::strategy::Union::new_weighted(choices);
             (prop::collection::vec(step, 1..g.max_steps), prop_oneof![3 => Just(None), 1 => Just(Some(WOp::Shutdown)), 1 => Just(Some(WOp::Drop))])
                 .prop_map(move |(mut steps, end)| {
+                    // a read is pending throughout, so that a failure of the connection surfaces
+                    steps.insert(0, Step::R(crate::sim::app::ROp::ReadToEnd { buf: 4096 }));
                     if let Some(e) = end {
                         steps.push(Step::W(e));
                         steps.push(Step::Adv(300));
